@@ -1,6 +1,7 @@
 package props
 
 import (
+	"fmt"
 	"strings"
 	"testing"
 
@@ -21,10 +22,12 @@ type monC08w struct {
 	lvl         monC13   // reference model of what each browser's session has proved (full login completed / remember cookie only)
 	viaRemember []string // per browser: the user a remember cookie put into the session, until a login as that user completes
 	twofaFor    []string // per browser: the user whose second-factor step set the session's 2FA mark
+	unsure      []bool   // per browser: a login-type request with a failed backend call left a user in the session (it may have completed the credential check before it failed)
 }
 
 func (c *monC08w) Init(m *Machine) {
 	c.viaRemember, c.twofaFor = make([]string, len(m.W.Jars)), make([]string, len(m.W.Jars))
+	c.unsure = make([]bool, len(m.W.Jars))
 }
 
 // track follows the session's provenance independently of the half-auth mark the library keeps.
@@ -33,11 +36,20 @@ func (c *monC08w) track(m *Machine, s *Step) {
 	b := s.Op.B % len(m.W.Jars)
 	if s.Op.K == "newsess" || s.Resp == nil {
 		if s.Op.K == "newsess" {
-			c.viaRemember[b], c.twofaFor[b] = "", ""
+			c.viaRemember[b], c.twofaFor[b], c.unsure[b] = "", "", false
 		}
 		return
 	}
 	uid := s.Resp.UID()
+	switch s.Op.K {
+	case "login", "otplogin", "recend", "o2cb", "register", "totpvalidate", "smsvalidate":
+		if s.Resp.Fired != "" && uid != "" {
+			c.unsure[b] = true
+		}
+	}
+	if uid == "" {
+		c.unsure[b] = false
+	}
 	if (s.Op.K == "totpvalidate" || s.Op.K == "smsvalidate") && s.Resp.SessAfter[authboss.Session2FA] != "" && uid != "" &&
 		(s.Resp.SessBefore[authboss.Session2FA] == "" || s.Resp.UIDBefore() != uid) {
 		c.twofaFor[b] = uid // this request completed a second-factor step for uid
@@ -63,6 +75,9 @@ func (c *monC08w) After(m *Machine, s *Step) *Violation {
 		return nil
 	}
 	r := s.Resp
+	if v := c.moduleRouteRefusal(m, s); v != nil {
+		return v
+	}
 	name := r.Rec.ProbeName
 	if !c08wProbes[name] {
 		if s.Op.K == "visit" && !r.Rec.ProbeRan {
@@ -96,7 +111,7 @@ func (c *monC08w) After(m *Machine, s *Step) *Violation {
 	if strings.Contains(name, "full") && half {
 		return violation("C08", "handler-ran-half-authed:"+name, "the handler behind %s ran for %q whose session is only half-authenticated", name, uid)
 	}
-	if b := s.Op.B % len(m.W.Jars); strings.Contains(name, "full") && r.SessBefore[authboss.SessionKey] == uid && c.viaRemember[b] == uid && len(c.lvl.level) > b && c.lvl.level[b] == "half" {
+	if b := s.Op.B % len(m.W.Jars); strings.Contains(name, "full") && r.SessBefore[authboss.SessionKey] == uid && c.viaRemember[b] == uid && len(c.lvl.level) > b && c.lvl.level[b] == "half" && !c.unsure[b] {
 		// the mark is gone although nothing completed a login: "full rather than half authentication" is about what was proved
 		return violation("C08", "handler-ran-for-remembered-session:"+name, "the handler behind %s ran for %q whose session goes back to a remember cookie; no login as that user completed since (session %v)", name, uid, r.SessBefore)
 	}
@@ -111,9 +126,50 @@ func (c *monC08w) After(m *Machine, s *Step) *Violation {
 	return nil
 }
 
+// moduleRouteRefusal: the library wraps its own 2FA settings routes with the same middleware. An anonymous
+// request (no session user, no remember cookie) to one of them gets exactly the configured refusal.
+func (c *monC08w) moduleRouteRefusal(m *Machine, s *Step) *Violation {
+	r, cfg := s.Resp, m.C.Cfg
+	var kind string
+	switch s.Op.K {
+	case "totpsetup", "totpconfirm":
+		kind = "totp"
+	case "smssetup", "smsconfirm":
+		kind = "sms"
+	case "regen":
+		kind = "recovery"
+	default:
+		return nil
+	}
+	if !cfg.HasSetup(kind) || r.UIDBefore() != "" || r.CookBefore["rm"] != "" || r.Fired != "" || r.Panic != nil || s.Op.RQ != "" || s.Op.JM != "" {
+		return nil
+	}
+	m.flag("refused")
+	if r.Rec.HandlerRan {
+		return violation("C08", "module-handler-ran-without-session-user:"+s.Op.K, "the %s handler ran for a request without a session user", s.Op.K)
+	}
+	refusal := cfg.Refusal
+	if cfg.LegacyRedirect {
+		refusal = 1
+	}
+	ok := false
+	switch refusal {
+	case 0:
+		ok = r.Status == 404
+	case 2:
+		ok = r.Status == 401
+	case 1:
+		ok = r.Location != "" && strings.HasPrefix(r.Location, cfg.Mount+"/login?")
+	}
+	if !ok {
+		return violation("C08", fmt.Sprintf("module-route-refusal:%s:mode=%d", s.Op.K, refusal), "anonymous %s request: configured refusal mode %d (0=404, 1=redirect to login, 2=401), answered %d location %q", s.Op.K, refusal, r.Status, r.Location)
+	}
+	return nil
+}
+
 func (c *monC08w) End(m *Machine) *Violation { return nil }
 
-var kindsC08w = append(append([]wk{}, worldKinds...), wk{"visit", 30}, wk{"snip:remember", 8}, wk{"snip:2fa", 4}, wk{"snip:idle", 3}, wk{"snip:switch2fa", 5})
+var kindsC08w = append(append([]wk{}, worldKinds...), wk{"visit", 30}, wk{"snip:remember", 8}, wk{"snip:2fa", 4}, wk{"snip:idle", 3}, wk{"snip:switch2fa", 5}, wk{"totpsetup", 4}, wk{"smssetup", 3}, wk{"totpconfirm", 2}, wk{"regen", 2}, wk{"newsess", 4})
 
 var profC08w = profile{
 	arbVariants: true,
